@@ -249,12 +249,29 @@ func (e *Env) Drain(fake time.Duration) string {
 	for {
 		left := deadline - e.Now()
 		if left <= 0 {
+			e.Settle()
 			return "drained"
 		}
 		e.Knobs.MaxIdle = left
 		r := e.Loop(func() bool { return e.Now() >= deadline })
 		if r != "idle" {
+			if r == "done" {
+				e.Settle()
+				return "drained"
+			}
 			return r
 		}
 	}
+}
+
+// Settle runs the goroutines that are runnable at the current instant until
+// none is left, without letting time pass and without network activity: a
+// timer that has just fired (read deadline, back-off) has then been handled.
+func (e *Env) Settle() {
+	if e.Quiet {
+		return
+	}
+	e.Quiet = true
+	e.Loop(func() bool { return false })
+	e.Quiet = false
 }
